@@ -142,7 +142,19 @@ def build_groups(rng, tier):
                 if special:
                     flat = special_data(rng, flat)
                     qs = [rng.choice(xs) if rng.random() < 0.6 else q for q in qs]
-            strat = ("spl", False, rng.choice(["nak", "nat", "cla"])) if spl else ("lin", False)
+            # extrapolating configurations, incl. the periodic spline (seed C09-r5m1: a batch hook of the Ix1 fast path that wraps
+            # every query of a periodic, extrapolating spline — in-range ones too — where the single-point path leaves them alone)
+            ext1 = (not want_oob) and (not special) and rng.random() < 0.45
+            bcn = rng.choice(["nak", "nat", "cla", "per", "per"]) if not special else rng.choice(["nak", "nat", "cla"])
+            if spl and bcn == "per":
+                flat[(n - 1) * L:] = flat[:L]
+            if ext1 and nq >= 1:
+                span = xs[-1] - xs[0]
+                for k_ in range(nq):
+                    if rng.random() < 0.3:
+                        u_ = rng.choice([-3, -1, 2, 5])
+                        qs[k_] = xs[0] + span * (Fr(u_ * 4 + 1, 4) if S == "Q" else u_ + 0.25)
+            strat = ("spl", ext1, bcn) if spl else ("lin", ext1)
             if want_oob and nq >= 1:
                 # one rejected element (out of range / NaN at f64) at a random position: every entry point must agree on the rejection
                 pos = rng.randrange(nq) if rng.random() < 0.4 else rng.randrange(max(1, nq - 1))
